@@ -16,7 +16,7 @@ def run(chk, repo, tier):
     no_hidden_state(chk, repo, 'C05')
     chk.clause('C05-a', 'unitary factor is sqrt|alpha_row*alpha_col| (axis symmetric), applied exactly when unitary; '
                         'the propagator asks for the unitary transform', 5)
-    chk.clause('C05-b', 'FFT path is orthonormal', 1)
+    chk.clause('C05-b', 'FFT path is orthonormal and transforms the field embedded in zeros (scratch region zeroed first)', 5)
     chk.clause('C05-c', 'intensity is never negative: |.|^2-derived values accumulated into zeros', 3)
     chk.clause('C05-d', 'normalize_power: c^2 * sum|array|^2 = power', 1)
     chk.not_decided += ['Parseval to rounding on commensurate grids', 'monotonicity of captured energy in the window '
@@ -53,6 +53,10 @@ def run(chk, repo, tier):
                 norms.add(n)
     chk.ob('C05-b', 'T-keyword', f2.key, "fft2(..., norm='ortho')", norms == {Const('ortho')},
            f'norm arguments: {sorted(map(repr, norms))}', f2.loc())
+
+    from .common import Remap
+    from . import c09
+    c09.run(Remap(chk, {'C09-d': 'C05-b'}), repo, tier)
 
     # ---------------------------------------------------------------- C05-c
     fi, paths, _ = analyse(repo, 'field.insert', config={'intensity': TRUE, 'weight': C(1)},
